@@ -75,6 +75,14 @@ Definition inv_exec (s : state) : bool :=
   | PlacePhase => false
   end.
 
+(* the assembled root state of a case passes the executable invariant (decided once per case by the driver;
+   successors of offered actions then satisfy the invariant by hash_preserved - which is what the clauses check) *)
+Definition inv_exec_blk (b : blk) : bool :=
+  match get tagS b with
+  | Some sl => match dec_state sl with Some s => inv_exec s | None => false end
+  | None => false
+  end.
+
 (* ------------------------------------------------------------------------------------------
    per-state monitors.  `reach` = the state was produced from a start state through offered
    actions only (false for states assembled with the public constructors).  `inv` = reach, or the state was assembled
@@ -91,7 +99,6 @@ Definition mon_block (dbg reach inv nopanic : bool) (b : blk) : list (N * N) :=
   match dec_state sl with
   | None => [(0, 1)]
   | Some s =>
-    let inv := reach || (inv && inv_exec s) in      (* assembled states: only if they pass the executable invariant *)
     let m := observe dbg s in
     let gm t := match get t m with Some v => v | None => [] end in
     let c := cell (board s) in
@@ -371,7 +378,7 @@ Definition mon_trans (hist_ok : bool) (g : ghost) (b : blk) (code : N) (b' : blk
         fails 10 3 (within_complement (board s'))
       | _, _ => [(0, 3)]
       end in
-      ((if hist_ok || inv_exec s then res else []), g')
+      (res, g')
     | _, _, _ => ([], g)
     end
   | _, _ => ([], g)
